@@ -5,25 +5,25 @@
 package compare
 
 //@ func As[*]
-//@   safety[C15]
-//@   ensures int[C15]:     typeis(v, int) ==> result == T(v.(int))
-//@   ensures int8[C15]:    typeis(v, int8) ==> result == T(v.(int8))
-//@   ensures int16[C15]:   typeis(v, int16) ==> result == T(v.(int16))
-//@   ensures int32[C15]:   typeis(v, int32) ==> result == T(v.(int32))
-//@   ensures int64[C15]:   typeis(v, int64) ==> result == T(v.(int64))
-//@   ensures uint[C15]:    typeis(v, uint) ==> result == T(v.(uint))
-//@   ensures uint8[C15]:   typeis(v, uint8) ==> result == T(v.(uint8))
-//@   ensures uint16[C15]:  typeis(v, uint16) ==> result == T(v.(uint16))
-//@   ensures uint32[C15]:  typeis(v, uint32) ==> result == T(v.(uint32))
-//@   ensures uint64[C15]:  typeis(v, uint64) ==> result == T(v.(uint64))
-//@   ensures float32[C15]: typeis(v, float32) ==> result == T(v.(float32))
-//@   ensures float64[C15]: typeis(v, float64) ==> result == T(v.(float64))
-//@   ensures other[C15]:   !spec.numeric(v) ==> result == 0
+//@   safety[C15,C01,C02,C03,C04,C05]
+//@   ensures int[C15,C01,C02,C03,C04,C05]:     typeis(v, int) ==> result == T(v.(int))
+//@   ensures int8[C15,C01,C02,C03,C04,C05]:    typeis(v, int8) ==> result == T(v.(int8))
+//@   ensures int16[C15,C01,C02,C03,C04,C05]:   typeis(v, int16) ==> result == T(v.(int16))
+//@   ensures int32[C15,C01,C02,C03,C04,C05]:   typeis(v, int32) ==> result == T(v.(int32))
+//@   ensures int64[C15,C01,C02,C03,C04,C05]:   typeis(v, int64) ==> result == T(v.(int64))
+//@   ensures uint[C15,C01,C02,C03,C04,C05]:    typeis(v, uint) ==> result == T(v.(uint))
+//@   ensures uint8[C15,C01,C02,C03,C04,C05]:   typeis(v, uint8) ==> result == T(v.(uint8))
+//@   ensures uint16[C15,C01,C02,C03,C04,C05]:  typeis(v, uint16) ==> result == T(v.(uint16))
+//@   ensures uint32[C15,C01,C02,C03,C04,C05]:  typeis(v, uint32) ==> result == T(v.(uint32))
+//@   ensures uint64[C15,C01,C02,C03,C04,C05]:  typeis(v, uint64) ==> result == T(v.(uint64))
+//@   ensures float32[C15,C01,C02,C03,C04,C05]: typeis(v, float32) ==> result == T(v.(float32))
+//@   ensures float64[C15,C01,C02,C03,C04,C05]: typeis(v, float64) ==> result == T(v.(float64))
+//@   ensures other[C15,C01,C02,C03,C04,C05]:   !spec.numeric(v) ==> result == 0
 //@   modifies nothing
 //@
 //@ func Cmp[*]
-//@   safety[C15]
-//@   ensures range[C15]: result == -1 || result == 0 || result == 1
+//@   safety[C15,C01,C02,C03,C04,C05]
+//@   ensures range[C15,C01,C02,C03,C04,C05]: result == -1 || result == 0 || result == 1
 //@   ensures mathorder.int[C15,C01,C05,C02,C03,C04]: typeis(b, int) && !typeis(b, T) && spec.exact(a) && spec.exact(b) ==> result == spec.sgn3(spec.val(a), spec.val(b))
 //@   ensures mathorder.int8[C15,C01,C05,C02,C03,C04]: typeis(b, int8) && !typeis(b, T) && spec.exact(a) && spec.exact(b) ==> result == spec.sgn3(spec.val(a), spec.val(b))
 //@   ensures mathorder.int16[C15,C01,C05,C02,C03,C04]: typeis(b, int16) && !typeis(b, T) && spec.exact(a) && spec.exact(b) ==> result == spec.sgn3(spec.val(a), spec.val(b))
@@ -45,23 +45,23 @@ package compare
 //@   modifies nothing
 //@
 //@ func compare[*]
-//@   safety[C15]
-//@   ensures range[C15]: result == -1 || result == 0 || result == 1
-//@   ensures num[C15]: spec.numeric(v) && spec.exact(a) && spec.exact(v) ==> result == spec.sgn3(spec.val(a), spec.val(v))
-//@   ensures text[C15]: !spec.numeric(v) ==> result == spec.cmp3(spec.FmtV(a), spec.FmtV(v))
+//@   safety[C15,C01,C02,C03,C04,C05]
+//@   ensures range[C15,C01,C02,C03,C04,C05]: result == -1 || result == 0 || result == 1
+//@   ensures num[C15,C01,C02,C03,C04,C05]: spec.numeric(v) && spec.exact(a) && spec.exact(v) ==> result == spec.sgn3(spec.val(a), spec.val(v))
+//@   ensures text[C15,C01,C02,C03,C04,C05]: !spec.numeric(v) ==> result == spec.cmp3(spec.FmtV(a), spec.FmtV(v))
 //@   modifies nothing
 //@
 //@ func Compare
-//@   safety[C15]
-//@   ensures range[C15]: result == -1 || result == 0 || result == 1
+//@   safety[C15,C01,C02,C03,C04,C05]
+//@   ensures range[C15,C01,C02,C03,C04,C05]: result == -1 || result == 0 || result == 1
 //@   ensures local order[C15,C01,C05,C02,C03,C04]: (spec.numeric(a) ==> spec.exact(a)) && (spec.numeric(b) ==> spec.exact(b)) ==> result == spec.CompareSpec(a, b)
 //@   ensures defn abstract[C15,C01,C05,C02,C03,C04]: (spec.numeric(a) ==> spec.exact(a)) && (spec.numeric(b) ==> spec.exact(b)) ==> result == spec.Cmp(a, b)
 //@   modifies nothing
 //@
-//@ lemma reflexive[C15]: (forall ((a Any)) (=> (=> (spec!numeric a) (spec!exact a)) (= (spec!CompareSpec a a) #x0000000000000000)))
-//@ lemma antisymmetric[C15]: (forall ((a Any) (b Any)) (=> (and (=> (spec!numeric a) (spec!exact a)) (=> (spec!numeric b) (spec!exact b))) (= (spec!CompareSpec a b) (bvneg (spec!CompareSpec b a)))))
-//@ lemma transitive-numbers[C15]: (forall ((a Any) (b Any) (c Any)) (=> (and (spec!numeric a) (spec!numeric b) (spec!numeric c) (spec!exact a) (spec!exact b) (spec!exact c) (bvsle (spec!CompareSpec a b) #x0000000000000000) (bvsle (spec!CompareSpec b c) #x0000000000000000)) (bvsle (spec!CompareSpec a c) #x0000000000000000)))
-//@ lemma transitive-text[C15]: (forall ((a Any) (b Any) (c Any)) (=> (and (not (spec!numeric a)) (not (spec!numeric b)) (not (spec!numeric c)) (bvsle (spec!CompareSpec a b) #x0000000000000000) (bvsle (spec!CompareSpec b c) #x0000000000000000)) (bvsle (spec!CompareSpec a c) #x0000000000000000)))
-//@ lemma strings-bytewise[C15]: (forall ((s Str) (t Str)) (= (spec!CompareSpec (a!string s) (a!string t)) (spec!cmp3 s t)))
-//@ lemma value-not-representation[C15]: (= (spec!CompareSpec (a!int #x0000000000000001) (a!float64 ((_ to_fp 11 53) RNE 1.5))) #xffffffffffffffff)
-//@ lemma negative-below-unsigned[C15]: (= (spec!CompareSpec (a!int #xffffffffffffffff) (a!uint #x0000000000000001)) #xffffffffffffffff)
+//@ lemma reflexive[C15,C01,C02,C03,C04,C05]: (forall ((a Any)) (=> (=> (spec!numeric a) (spec!exact a)) (= (spec!CompareSpec a a) #x0000000000000000)))
+//@ lemma antisymmetric[C15,C01,C02,C03,C04,C05]: (forall ((a Any) (b Any)) (=> (and (=> (spec!numeric a) (spec!exact a)) (=> (spec!numeric b) (spec!exact b))) (= (spec!CompareSpec a b) (bvneg (spec!CompareSpec b a)))))
+//@ lemma transitive-numbers[C15,C01,C02,C03,C04,C05]: (forall ((a Any) (b Any) (c Any)) (=> (and (spec!numeric a) (spec!numeric b) (spec!numeric c) (spec!exact a) (spec!exact b) (spec!exact c) (bvsle (spec!CompareSpec a b) #x0000000000000000) (bvsle (spec!CompareSpec b c) #x0000000000000000)) (bvsle (spec!CompareSpec a c) #x0000000000000000)))
+//@ lemma transitive-text[C15,C01,C02,C03,C04,C05]: (forall ((a Any) (b Any) (c Any)) (=> (and (not (spec!numeric a)) (not (spec!numeric b)) (not (spec!numeric c)) (bvsle (spec!CompareSpec a b) #x0000000000000000) (bvsle (spec!CompareSpec b c) #x0000000000000000)) (bvsle (spec!CompareSpec a c) #x0000000000000000)))
+//@ lemma strings-bytewise[C15,C01,C02,C03,C04,C05]: (forall ((s Str) (t Str)) (= (spec!CompareSpec (a!string s) (a!string t)) (spec!cmp3 s t)))
+//@ lemma value-not-representation[C15,C01,C02,C03,C04,C05]: (= (spec!CompareSpec (a!int #x0000000000000001) (a!float64 ((_ to_fp 11 53) RNE 1.5))) #xffffffffffffffff)
+//@ lemma negative-below-unsigned[C15,C01,C02,C03,C04,C05]: (= (spec!CompareSpec (a!int #xffffffffffffffff) (a!uint #x0000000000000001)) #xffffffffffffffff)
